@@ -246,6 +246,9 @@ func (ex *Exec) resetPath() {
 	ex.ordSeen = nil
 	ex.hex = nil
 	ex.bigVals = nil
+	ex.written = nil
+	ex.evalOverride = nil
+	ex.brLabel, ex.pendingLabel = "", ""
 	for k := range ex.ghost {
 		delete(ex.ghost, k)
 	}
@@ -647,6 +650,7 @@ func (ex *Exec) atReturn(results []Value) {
 			continue
 		}
 		var parts []*Term
+		info := "cells outside modifies are unchanged"
 		for i, c := range o.Cells {
 			if mod[o][i] || i >= len(o.Init) {
 				continue
@@ -656,9 +660,15 @@ func (ex *Exec) atReturn(results []Value) {
 			if ok1 && ok2 {
 				parts = append(parts, Eq(ct, it))
 			}
+			if w, wr := ex.written[o][i]; wr && !o.Global {
+				// stored to during the call: a violation even if the old value is back at the end (another
+				// goroutine reading the argument would see the intermediate value, and race with the store)
+				parts = append(parts, BoolC(false))
+				info = "cell " + fmt.Sprint(i) + " outside modifies is written during the call (" + w + "), whatever value it ends with"
+			}
 		}
 		g := And(parts...)
-		ob := ex.oblige("frame", o.Name, g, "cells outside modifies are unchanged")
+		ob := ex.oblige("frame", o.Name, g, info)
 		ob.Props = fc.Props
 	}
 }
